@@ -98,9 +98,12 @@ def run_property(prop_id, tier='quick', seed=0, jobs=None):
     timeout_ms = getattr(mod, 'TIMEOUT_MS', {}).get(tier, 10000 if tier == 'quick' else 60000)
     fns = list(getattr(mod, 'FUNCTIONS', []))
     ctx = mp.get_context('fork')
+    if tier == 'thorough':
+        os.environ['PYVC_SECOND_OPINION'] = '1'
     with ctx.Pool(jobs, initializer=_init) as pool:
         # 1. function contracts
-        shards = getattr(mod, 'SHARDS', {})
+        from props import _common as _pc
+        shards = dict(getattr(_pc, 'COMMON_SHARDS', {}), **getattr(mod, 'SHARDS', {}))     # a property may override the common split
         vtasks = []
         for q in fns:
             n = shards.get(q, shards.get(q.split('.')[-1], 1))
@@ -203,6 +206,7 @@ def finish(mod, res: Result, kf):
         os.unlink(os.path.join(rdir, old))
     n_ob = n_dis = n_known = 0
     backends = {}
+    second = {}
     solver_time = 0.0
     samples = []
     findings = [e for e in kf.get('findings', []) if prop_id in ([e.get('property')] + e.get('also', []))]
@@ -229,6 +233,8 @@ def finish(mod, res: Result, kf):
             if ob['result'] == 'proved':
                 n_dis += 1
                 backends[ob['backend']] = backends.get(ob['backend'], 0) + 1
+                if ob.get('second') is not None:
+                    second[ob['second']] = second.get(ob['second'], 0) + 1
                 if len(samples) < 6 and ob['kind'] in ('post', 'loop-preserve', 'no-raise', 'lemma'):
                     samples.append(dict(obligation=ob['id'], kind=ob['kind'], text=ob['desc'], backend=ob['backend'], time_s=ob['time']))
             elif ob['result'] == 'refuted':
@@ -244,13 +250,15 @@ def finish(mod, res: Result, kf):
                 res.violations.append(dict(obligation=ob['id'], replay=path, confirmed=confirmed))
             else:
                 res.undecided.append(dict(obligation=ob['id'], reason='solver returned unknown / timeout'))
-        # a return statement is vacuous only when no path at all reaches it (one infeasible path among several is normal: e.g. the
-        # test-false exit of a `while x is None:` loop that is always left by break)
+        # vacuity guard: a contract whose precondition excludes everything makes every obligation hold trivially.  It is an error when
+        # NO return of the function is reachable; a single unreachable return line (e.g. the test-false exit of a `while x is None:` loop
+        # that is always left by break, or a path the 2 s reachability query could not settle the same way twice) is only noted.
         rets = [c for c in rep.get('covers', []) if c['what'] == 'return']
+        if rets and all(c['result'] == 'unreachable' for c in rets):
+            res.errors.append(f"{rep['function']}: no return is reachable under the contract's precondition (vacuity guard)")
         dead_lines = {c['line'] for c in rets} - {c['line'] for c in rets if c['result'] != 'unreachable'}
-        unreachable = [next(c for c in rets if c['line'] == ln) for ln in sorted(dead_lines)]
-        for c in unreachable:
-            res.errors.append(f"{rep['function']}: return at line {c['line']} is unreachable under the contract's precondition (vacuity guard)")
+        if dead_lines and not all(c['result'] == 'unreachable' for c in rets):
+            rep['unreachable_return_lines'] = sorted(dead_lines)
     for part, label in ((res.structural, 'structural'), (res.lemmas, 'lemma')):
         for ob in part:
             entry = next((e for e in findings if e.get('match', {}).get('obligation') == ob['id']), None)
@@ -335,12 +343,13 @@ def finish(mod, res: Result, kf):
         level = 'other'
     fn_list = [dict(function=r['function'], file=r.get('file'), lines=r.get('lines'), ast_hash=r.get('ast_hash'), status=r['status'],
                     obligations=len(r['obligations']), proved=sum(o['result'] == 'proved' for o in r['obligations']),
-                    time_s=r.get('time')) for r in res.functions]
+                    time_s=r.get('time'), **({'unreachable_return_lines': r['unreachable_return_lines']} if r.get('unreachable_return_lines') else {})) for r in res.functions]
     coverage = dict(
         obligations=n_ob, discharged=n_dis, known_finding_obligations=n_known,
         checker_cmd=f'./vcheck {prop_id} {res.tier}',
         trusted_base=list(getattr(mod, 'TRUSTED', [])),
         backends=backends, solver_time_s=round(solver_time, 2),
+        second_opinion_cvc5=second or None,
         functions_under_contract=fn_list,
         structural=[dict(id=o['id'], result=o['result'], desc=o['desc']) for o in res.structural][:60],
         lemmas=[dict(id=o['id'], result=o['result'], desc=o['desc']) for o in res.lemmas][:60],
